@@ -29,19 +29,40 @@ import (
 //    MultiSign on keystore files incl. a re-opened keystore, Schnorr
 //    aggregate) must pass blockchain.RunPrograms AND the independent model;
 //    after changing one byte of the unsigned serialisation both must fail.
+//    Witness parameters that carry no authorisation (empty, zero, random,
+//    short, one signature short, repeated, other keys, other content) must fail.
+// G: the same two oracles over the account-shape grid: every script class under
+//    every address prefix RunPrograms verifies it for (incl. deposit- and
+//    standard-prefixed m-of-n with m==n and m<n) - c37_grid.go.
+// K: wallets written through the real keystore, re-opened, then used for
+//    signing; private keys of 32, 31 and 30 significant bytes - c37_grid.go.
 // C: Uint168.ToAddress / Uint168FromAddress and Fixed64.String /
 //    StringToFixed64 against the independent codecs of c05_model.go.
 
 func init() {
 	kit.Register(&kit.Spec{
 		ID:     "C37",
-		Rule:   "S: key sets of 1..8 fresh P-256 keys; standard, every (m,n) with 2<=n<=8, Schnorr aggregates of 1..8 keys; random TransferAsset transactions (v0/v9, 1..4 inputs, 1..4 outputs, attributes, lock time); each signed through one wallet path with the signer order permuted; then one byte of the unsigned bytes changed at every position (<=400) for standard and Schnorr witnesses and at a seeded sample of max(24, 800/(m*n)) positions incl. first and last for m-of-n witnesses. C: every issued address prefix x random 20-byte hashes, mutated address strings (one character replaced / transposed / dropped / inserted / non-alphabet / leading ones); Fixed64 edge values and random values of every magnitude. distinct = distinct (path, m, n, unsigned bytes) resp. codec input; non-trivial = the wallet produced a witness and the node's check was executed on it resp. the codec returned a string",
+		Rule:   "S: key sets of 1..8 fresh P-256 keys; standard, every (m,n) with 2<=n<=8, Schnorr aggregates of 1..8 keys; random TransferAsset transactions (v0/v9, 1..4 inputs, 1..4 outputs, attributes, lock time); each signed through one wallet path with the signer order permuted; then one byte of the unsigned bytes changed at every position (<=400) for standard and Schnorr witnesses and at a seeded sample of max(24, 800/(m*n)) positions incl. first and last for m-of-n witnesses; then 6..10 witness parameters without authorisation (empty, zero, random, short by one byte, one signature short, one signature repeated, signed by keys outside the script, signed over other content). G: a fixed grid of 116 account shapes = (m-of-n script for every 1<=m<=n<=8) x (address prefix 0x1F deposit, 0x12 multisig, 0x21 standard) + standard and 1/3/8-key Schnorr scripts x (0x21, 0x1F); quick deals the cells out over the shards (the schedule does not depend on the seed), thorough runs every cell 3 times per shard; fresh keys order, transaction and wallet path (function / ByM / single-key keystores one after the other / keystore MultiSign / re-opened keystore) per cell; 24 (thorough 96; fewer for large m*n, at least 4) byte changes + truncation + extension of the signed content + the forged parameters; 1-of-1 scripts: forged parameters only. K: per round 7 keystore files written by account.Create/CreateAccount/SaveAccount/CreateFromAccount/Add and by the import flow (Open + SaveAccount), private-key scalars of 32, 31 and 30 significant bytes and a 32-byte key with a leading zero byte constructed from the seed plus wallet-generated keys; every file re-opened with account.Open BEFORE any signing; each stored account signs a standard transaction (Client.Sign), n-of-n and m-of-n scripts containing a short-scalar key are signed by Client.MultiSign and by single-key re-opened wallets one after the other (short-scalar co-signers first); judged against the address computed before the save. C: every issued address prefix x random 20-byte hashes, mutated address strings (one character replaced / transposed / dropped / inserted / non-alphabet / leading ones); Fixed64 edge values and random values of every magnitude. distinct = distinct (part, path, m, n, prefix, unsigned bytes) resp. codec input; non-trivial = the wallet produced a witness and the node's check was executed on it resp. the codec returned a string",
 		Shards: func(tier string) int { return 8 },
 		Run:    runC37,
 		Require: []string{"S_signed:standard-func", "S_signed:standard-client", "S_signed:multisig-sequential", "S_signed:multisig-byM", "S_signed:multisig-client-sequential", "S_signed:multisig-client-multisign", "S_signed:schnorr", "S_signed:reopened-keystore",
-			"S_accepted", "S_mutations_rejected", "max:S_mn_combinations_in_one_shard", "S_mn:1-of-2", "S_mn:8-of-8", "S_mn:5-of-7", "C_addr_roundtrips", "C_addr_mutants_rejected", "C_fixed64_roundtrips", "C_fixed64_edges"},
+			"S_accepted", "S_mutations_rejected", "S_forged_rejected",
+			"G_judged:multisig", "G_judged:deposit-multisig-n-of-n", "G_judged:deposit-multisig-m-of-n", "G_judged:std-prefix-multisig-n-of-n", "G_judged:std-prefix-multisig-m-of-n",
+			"G_judged:standard", "G_judged:deposit-standard", "G_judged:schnorr", "G_judged:deposit-schnorr",
+			"G_nn:1-of-1:prefix-0x1f", "G_nn:2-of-2:prefix-0x1f", "G_nn:3-of-3:prefix-0x1f", "G_nn:8-of-8:prefix-0x1f", "G_nn:2-of-2:prefix-0x21", "G_nn:8-of-8:prefix-0x12", "G_m<n_cells:prefix-0x1f", "G_m<n_cells:prefix-0x21", "G_m<n_cells:prefix-0x12",
+			"G_forged:deposit-multisig-n-of-n", "G_forged:deposit-multisig-m-of-n", "G_forged:std-prefix-multisig-n-of-n", "G_forged:std-prefix-multisig-m-of-n", "G_forged:multisig", "G_forged:deposit-standard", "G_forged:deposit-schnorr",
+			"G_negative_only_1of1:deposit-multisig-n-of-n", "G_negative_only_1of1:multisig", "G_negative_only_1of1:std-prefix-multisig-n-of-n",
+			"G_signed:multisig-sequential", "G_signed:multisig-byM", "G_signed:multisig-client-sequential", "G_signed:multisig-client-multisign", "G_signed:multisig-reopened-multisign",
+			"G_accepted", "G_mutations_rejected", "G_forged_rejected",
+			"K_keystores_reopened", "K_imported_into_reopened_wallet",
+			"K_signed:keystore-reopen-standard", "K_signed:keystore-reopen-multisign", "K_signed:keystore-reopen-cosigners",
+			"K_judged:scalar-32", "K_judged:scalar-31", "K_judged:scalar-30", "K_judged:scalar-32-leading-zero-byte", "K_judged:wallet-generated",
+			"K_judged:multisig-script-with-short-scalar-key", "K_judged:multisig-with-short-scalar-cosigner", "K_judged:deposit-multisig-n-of-n",
+			"K_accepted", "K_mutations_rejected", "K_forged_rejected",
+			"max:S_mn_combinations_in_one_shard", "S_mn:1-of-2", "S_mn:8-of-8", "S_mn:5-of-7", "C_addr_roundtrips", "C_addr_mutants_rejected", "C_fixed64_roundtrips", "C_fixed64_edges"},
 		Assumptions: []string{"Go standard library crypto (ecdsa, elliptic, sha256), math/big and x/crypto/ripemd160 are correct",
-			"a wallet that cannot produce a witness at all (1-of-1 multisig scripts are refused by the signer) is reported as a note, not as a failing signature"},
+			"a wallet that cannot produce a witness at all (1-of-1 multisig scripts are refused by the signer) is reported as a note, not as a failing signature",
+			"part K: the keystore's IV/master key, the keys made by Client.CreateAccount and ECDSA nonces come from crypto/rand inside the wallet (not replayable); every chosen key, script, transaction and mutation comes from the seed, and the private-key length classes the verdicts depend on are constructed, not awaited"},
 	})
 }
 
@@ -110,6 +131,7 @@ func runC37(c *kit.Ctx) {
 		pool = append(pool, c37RandKey(r))
 	}
 	g.pool = pool
+	j := newC37J(c, c.Rand("c37-neg"))
 	var single []*c37Client // client i owns pool[i]
 	for i := 0; i < 8; i++ {
 		cl, err := c37NewClient(c, fmt.Sprintf("single%d", i), pool[i])
@@ -172,6 +194,8 @@ func runC37(c *kit.Ctx) {
 		var tx interfaces.Transaction
 		var prog *pg.Program
 		var serr error
+		var skeys []c05Key    // the script's keys (forged-witness oracle)
+		var sprivs []*big.Int // Schnorr
 		desc := path
 		mkTx := func(h common.Uint168) {
 			tx, _ = c05RandTx(r, []*c05Addr{{hash: h}}, -1)
@@ -179,6 +203,7 @@ func runC37(c *kit.Ctx) {
 		switch path {
 		case "standard-func", "standard-client":
 			k := ks[0]
+			skeys = []c05Key{k}
 			hash, code = k.acc.ProgramHash, k.acc.RedeemScript
 			mkTx(hash)
 			if path == "standard-func" {
@@ -199,6 +224,7 @@ func runC37(c *kit.Ctx) {
 			// standard or multisig through the re-opened 8-key keystore
 			if i%2 == 0 {
 				k := ks[0]
+				skeys = []c05Key{k}
 				hash, code = k.acc.ProgramHash, k.acc.RedeemScript
 				mkTx(hash)
 				tx.SetPrograms([]*pg.Program{{Code: code}})
@@ -217,6 +243,7 @@ func runC37(c *kit.Ctx) {
 					continue
 				}
 				hash, code = ma.ProgramHash, ma.RedeemScript
+				skeys = ks[:cb.n]
 				mkTx(hash)
 				tx.SetPrograms([]*pg.Program{{Code: code}})
 				if _, serr = reopened.MultiSign(cb.m, tx); serr == nil {
@@ -233,6 +260,7 @@ func runC37(c *kit.Ctx) {
 			}
 			sa := account.NewSchnorrAggregateAccount(accs)
 			hash, code = *sa.ProgramHash, sa.RedeemScript
+			sprivs = sa.PrivateKeys
 			mkTx(hash)
 			sig, err := crypto.AggregateSignatures(sa.PrivateKeys, common.Sha256D(c05Serialize(tx)))
 			serr = err
@@ -249,6 +277,7 @@ func runC37(c *kit.Ctx) {
 				continue
 			}
 			hash, code = ma.ProgramHash, ma.RedeemScript
+			skeys = ks[:cb.n]
 			mkTx(hash)
 			mnSeen[cb] = true
 			desc += fmt.Sprintf("/%d-of-%d", cb.m, cb.n)
@@ -362,6 +391,10 @@ func runC37(c *kit.Ctx) {
 				c.Inconclusive("model accepts a witness over modified data (%s)", desc)
 			}
 		}
+		// witness parameters without authorisation (every m-of-n shape gets them in part G)
+		if wkind != "multisig" {
+			j.forged(&c37Wit{fam: "S", desc: desc, shape: wkind, kind: wkind, hash: hash, code: prog.Code, prog: prog, m: 1, keys: skeys, privs: sprivs}, data)
+		}
 		// field-level change through the transaction object
 		tx.SetLockTime(tx.LockTime() ^ (1 << uint(r.Intn(32))))
 		if ok, _ := run(c05Serialize(tx)); ok {
@@ -373,6 +406,14 @@ func runC37(c *kit.Ctx) {
 	c.Max("max:S_mn_combinations_in_one_shard", int64(len(mnSeen)))
 	for cb := range mnSeen {
 		c.Inc(fmt.Sprintf("S_mn:%d-of-%d", cb.m, cb.n))
+	}
+
+	// ---------- G: account-shape grid ----------
+	j.grid(pool[:8], single, big8.cl, reopened)
+
+	// ---------- K: keystores written, re-opened, then used ----------
+	for round := 0; round < c.N(1, 12); round++ {
+		j.keystores(round)
 	}
 
 	// ---------- C: address codec ----------
